@@ -110,3 +110,48 @@ Definition c_rdiv (s : Q) (a : curve) : res curve :=
       Ok (mkcurve (ckv a) (Some (map (fun wi => [Qred (s / wi)]) w)) (Some w))
   | _, _ => Err Uncertified
   end.
+
+(* ---- rational operands: the library splits each operand into numerator / denominator splines (fraction()) and
+   composes the polynomial operations: (Na Db + Nb Da) / (Da Db), (Na Nb) / (Da Db), (Na Db) / (Da Nb).
+   A polynomial operand has the integer 1 as denominator (None below). ---- *)
+Definition c_fraction (c : curve) : res (curve * option curve) :=
+  match cP c, cW c with
+  | None, _ => Err ValueError
+  | Some P, None => Ok (c, None)
+  | Some P, Some W =>
+      Ok (mkcurve (ckv c) (Some (map2 (fun w p => vscale w p) W P)) None,
+          Some (mkcurve (ckv c) (Some (map (fun w => [w]) W)) None))
+  end.
+
+Definition mul_opt (x : curve) (d : option curve) : res curve :=
+  match d with None => Ok x | Some dc => c_mul x dc end.
+Definition den_mul (a b : option curve) : res (option curve) :=
+  match a, b with
+  | None, None => Ok None
+  | Some x, None | None, Some x => Ok (Some x)
+  | Some x, Some y => do z <- c_mul x y; Ok (Some z)
+  end.
+Definition div_opt (n : curve) (d : option curve) : res curve :=
+  match d with None => Ok n | Some dc => c_div n dc end.
+
+Definition c_add_r (a b : curve) : res curve :=
+  if negb (limits_eqb (ckv a) (ckv b)) then Err ValueError else
+  do fa <- c_fraction a; do fb <- c_fraction b;
+  let (na, da) := fa in let (nb, db) := fb in
+  do x <- mul_opt na db; do y <- mul_opt nb da;
+  do n <- c_add x y; do d <- den_mul da db;
+  div_opt n d.
+Definition c_sub_r (a b : curve) : res curve := do nb <- c_neg b; c_add_r a nb.
+Definition c_mul_r (a b : curve) : res curve :=
+  if negb (limits_eqb (ckv a) (ckv b)) then Err ValueError else
+  do fa <- c_fraction a; do fb <- c_fraction b;
+  let (na, da) := fa in let (nb, db) := fb in
+  do n <- c_mul na nb; do d <- den_mul da db;
+  div_opt n d.
+Definition c_div_r (a b : curve) : res curve :=
+  if negb (limits_eqb (ckv a) (ckv b)) then Err ValueError else
+  do fa <- c_fraction a; do fb <- c_fraction b;
+  let (na, da) := fa in let (nb, db) := fb in
+  do n <- mul_opt na db;
+  do d <- (match da with None => Ok nb | Some dc => c_mul dc nb end);
+  c_div n d.
